@@ -979,8 +979,11 @@ class SetIndex(BaseSetIndexSortValues):
         from dask_expr._expr import Filter, Head, Tail
 
         # TODO, handle setting index with other frame
+        # A negative n takes all but the last / first rows of a partition: these
+        # are not the first / last rows of the whole frame
         if (
             isinstance(parent, Head)
+            and parent.n >= 0
             and isinstance(self._other, (int, str))
             and self._other in self.frame.columns
         ):
@@ -989,6 +992,7 @@ class SetIndex(BaseSetIndexSortValues):
 
         if (
             isinstance(parent, Tail)
+            and parent.n >= 0
             and isinstance(self._other, (int, str))
             and self._other in self.frame.columns
         ):
@@ -1149,7 +1153,9 @@ class SortValues(BaseSetIndexSortValues):
     def _simplify_up(self, parent, dependents):
         from dask_expr._expr import Filter, Head, Tail
 
-        if isinstance(parent, Head):
+        # A negative n takes all but the last / first rows of a partition: these
+        # are not the first / last rows of the whole frame
+        if isinstance(parent, Head) and parent.n >= 0:
             return NFirst(
                 self.frame,
                 n=parent.n,
@@ -1160,7 +1166,7 @@ class SortValues(BaseSetIndexSortValues):
             )
 
         # the labels of the last rows depend on the length of the last partition
-        if isinstance(parent, Tail) and not self.ignore_index:
+        if isinstance(parent, Tail) and parent.n >= 0 and not self.ignore_index:
             return NLast(
                 self.frame,
                 n=parent.n,
